@@ -4,6 +4,26 @@ From Coq Require Import NArith ZArith List Bool.
 From DictIO Require Import Chars Str Value Scalar Lexer LayoutSpec LayoutProofs.
 Import ListNotations.
 
+(* ---- tactics for the non-vacuity examples: build [Forall lexeme], [ws_run] and [rendering] derivations for concrete
+   lexeme lists and texts (the white space run after each lexeme is read off the text) ------------------------------ *)
+Ltac ws_run_tac := repeat (constructor; [reflexivity|]); constructor.
+Ltac lexeme_tac :=
+  first [ left; eexists; split; reflexivity
+        | right; split; [discriminate | repeat (constructor; [split; reflexivity|]); constructor] ].
+Ltac lexemes_tac := repeat (constructor; [lexeme_tac|]); constructor.
+Ltac gap_tac :=
+  first [ left; discriminate | right; left; eexists; split; reflexivity | right; right; eexists; split; reflexivity ].
+Ltac rendering_tac :=
+  lazymatch goal with
+  | |- rendering [] _ => apply r_nil
+  | |- rendering [?x] _ => apply r_one
+  | |- rendering (?x :: ?y :: ?l) ?t =>
+      let w := eval vm_compute in (fst (span is_space (drop_n (length x) t))) in
+      let r := eval vm_compute in (snd (span is_space (drop_n (length x) t))) in
+      change t with (x ++ w ++ r);
+      apply r_cons; [ rendering_tac | ws_run_tac | gap_tac ]
+  end.
+
 (* whatever white space (blanks, tabs, LF, CRLF, any amount) separates the lexemes, and whether or not delimiters
    are glued to their neighbours: delimiter separation + tokenising yields exactly the lexeme list *)
 Theorem C02_layout_tokens : forall ls txt w1 w2, Forall lexeme ls -> rendering ls txt -> ws_run w1 -> ws_run w2 ->
@@ -11,11 +31,44 @@ Theorem C02_layout_tokens : forall ls txt w1 w2, Forall lexeme ls -> rendering l
 Proof. exact layout_tokens. Qed.
 Print Assumptions C02_layout_tokens.
 
+(* non-vacuity: twelve lexemes (words, a float, a quoted placeholder-like word, all kinds of delimiters), rendered with
+   blanks, tabs, LF, CRLF, a no-break space and glued delimiters, surrounded by white space *)
+Example C02_layout_tokens_nonvacuous :
+  let ls := map of_string ["a"; "{"; "b.c"; "-1.5e3"; ";"; "c"; "("; "1"; "x'y"; ")"; ";"; "}"]%string in
+  let txt := of_string "a{b.c" ++ [c_tab; c_sp] ++ of_string "-1.5e3;" ++ [c_cr; c_lf] ++ of_string "c  (1" ++ [160%N] ++ of_string "x'y);" ++ [c_lf] ++ of_string "}" in
+  let w1 := [c_sp; c_lf; c_tab] in let w2 := [c_cr; c_lf; c_sp] in
+  Forall lexeme ls /\ rendering ls txt /\ ws_run w1 /\ ws_run w2 /\
+  filter nonempty (tokenize (separate_delimiters (w1 ++ txt ++ w2))) = ls.
+Proof.
+  intros ls txt w1 w2.
+  assert (H1 : Forall lexeme ls) by (let v := eval vm_compute in ls in change (Forall lexeme v); lexemes_tac).
+  assert (H2 : rendering ls txt) by (let v := eval vm_compute in ls in let t := eval vm_compute in txt in change (rendering v t); rendering_tac).
+  assert (H3 : ws_run w1) by (let v := eval vm_compute in w1 in change (ws_run v); ws_run_tac).
+  assert (H4 : ws_run w2) by (let v := eval vm_compute in w2 in change (ws_run v); ws_run_tac).
+  exact (conj H1 (conj H2 (conj H3 (conj H4 (C02_layout_tokens ls txt w1 w2 H1 H2 H3 H4))))).
+Qed.
+
 (* hence two renderings of the same lexemes tokenise alike *)
 Theorem C02_layout_independent : forall ls a b, Forall lexeme ls -> rendering ls a -> rendering ls b ->
   filter nonempty (tokenize (separate_delimiters a)) = filter nonempty (tokenize (separate_delimiters b)).
 Proof. exact layout_independent. Qed.
 Print Assumptions C02_layout_independent.
+
+(* non-vacuity: the same nine lexemes laid out compactly and generously (two different derivations of [rendering]) *)
+Example C02_layout_independent_nonvacuous :
+  let ls := map of_string ["a"; "{"; "b"; "1"; ";"; "c"; "("; ")"; "}"]%string in
+  let a := of_string "a{b 1;c()}" in
+  let b := of_string "a" ++ [c_lf] ++ of_string "{" ++ [c_lf; c_sp; c_sp] ++ of_string "b" ++ [c_tab; c_tab] ++ of_string "1 ;" ++ [c_cr; c_lf] ++ of_string "c ( ) }" in
+  Forall lexeme ls /\ rendering ls a /\ rendering ls b /\ a <> b /\
+  filter nonempty (tokenize (separate_delimiters a)) = filter nonempty (tokenize (separate_delimiters b)).
+Proof.
+  intros ls a b.
+  assert (H1 : Forall lexeme ls) by (let v := eval vm_compute in ls in change (Forall lexeme v); lexemes_tac).
+  assert (H2 : rendering ls a) by (let v := eval vm_compute in ls in let t := eval vm_compute in a in change (rendering v t); rendering_tac).
+  assert (H3 : rendering ls b) by (let v := eval vm_compute in ls in let t := eval vm_compute in b in change (rendering v t); rendering_tac).
+  refine (conj H1 (conj H2 (conj H3 (conj _ (C02_layout_independent ls a b H1 H2 H3))))).
+  vm_compute. discriminate.
+Qed.
 
 (* accepted spellings of booleans and none, in any letter case *)
 Theorem C02_bool_spellings : forall s,
@@ -24,6 +77,27 @@ Theorem C02_bool_spellings : forall s,
   ((lower s = w_none \/ lower s = w_null) -> parse_value s = Ok SNone).
 Proof. exact bool_none_spellings. Qed.
 Print Assumptions C02_bool_spellings.
+
+(* the premises of the three implications are met by mixed-case spellings *)
+Example C02_bool_spellings_nonvacuous :
+  (lower (of_string "TrUe") = w_true /\ lower (of_string "ON") = w_on /\ lower (of_string "False") = w_false /\
+   lower (of_string "oFF") = w_off /\ lower (of_string "None") = w_none /\ lower (of_string "NULL") = w_null) /\
+  (parse_value (of_string "TrUe") = Ok (SBool true) /\ parse_value (of_string "ON") = Ok (SBool true) /\
+   parse_value (of_string "False") = Ok (SBool false) /\ parse_value (of_string "oFF") = Ok (SBool false) /\
+   parse_value (of_string "None") = Ok SNone /\ parse_value (of_string "NULL") = Ok SNone).
+Proof.
+  assert (H : lower (of_string "TrUe") = w_true /\ lower (of_string "ON") = w_on /\ lower (of_string "False") = w_false /\
+              lower (of_string "oFF") = w_off /\ lower (of_string "None") = w_none /\ lower (of_string "NULL") = w_null)
+    by (vm_compute; repeat split; reflexivity).
+  split; [exact H|]. destruct H as (H1 & H2 & H3 & H4 & H5 & H6).
+  refine (conj _ (conj _ (conj _ (conj _ (conj _ _))))).
+  - exact (proj1 (C02_bool_spellings _) (or_introl H1)).
+  - exact (proj1 (C02_bool_spellings _) (or_intror H2)).
+  - exact (proj1 (proj2 (C02_bool_spellings _)) (or_introl H3)).
+  - exact (proj1 (proj2 (C02_bool_spellings _)) (or_intror H4)).
+  - exact (proj2 (proj2 (C02_bool_spellings _)) (or_introl H5)).
+  - exact (proj2 (proj2 (C02_bool_spellings _)) (or_intror H6)).
+Qed.
 
 Example C02_example :
   filter nonempty (tokenize (separate_delimiters (of_string "a{b  1;c(1 2);}"))) =
